@@ -1302,7 +1302,7 @@ var kC18 = run.NewKind("c18.tree", func(c *run.Ctx, t c18Case) *run.Fail {
 func init() {
 	run.Register(&run.Prop{
 		ID: "C18", Level: "exploration", MinNontrivial: 300,
-		Rule: "a case is a random module tree (depth <= 3, diamonds, name clashes, several arities, data modules, name.jq vs name/name.jq, the same name in several search directories, relative search metadata) written to a temp dir, a search-path configuration (library NewModuleLoader ~80 %, command -L absolute / relative, default list with HOME redirected, -L ~/.jq) and 5-10 variants adding one call or one import to one file; every definition returns [label, results of its calls]. Each program is decided three ways: real (files on disk), resolution/scope model (file list only), single-file inlined program with alias__name renaming. modulemeta is compared for every module of the base tree. Non-trivial = distinct trees that load >= 2 files and have >= 1 alias import or name clash.",
+		Rule: "a case is a random module tree (depth <= 3, diamonds, name clashes, several arities, data modules, name.jq vs name/name.jq, the same name in several search directories, relative search metadata) written to a temp dir, a search-path configuration (library NewModuleLoader ~80 %, command -L absolute / relative, default list with HOME redirected, -L ~/.jq) and 5-10 variants adding one call or one import to one file; every definition returns [label, results of its calls]. Each program is decided three ways: real (files on disk), resolution/scope model (file list only), single-file inlined program with alias__name renaming. modulemeta is compared for every module of the base tree. Non-trivial = distinct trees that load >= 2 files and have >= 1 alias import or name clash. Also: mode clif (the main program is a file given with -f and the command runs in another directory: relative search paths of the program are relative to the program file), import metadata with decoy keys named like the fields modulemeta computes, global variables (--arg / WithVariables) named like data imports.",
 		Assumptions: []string{
 			"data variables imported by an included module end with that module's text (pinned by cli/test.yaml 'variable name conflict'); functions and aliases spliced by include stay visible",
 			"when two different modules are imported under one alias and define the same name/arity the winner is not asserted (statement silent); likewise the order between a search entry and the -L list (unique location generated)",
